@@ -17,7 +17,10 @@ use crate::util::{hash_combine, Rng};
 pub struct C11;
 
 // lseek: the positioning done as part of opening a WAL file / handing the cursor to the writer
-const CLASSES: [usize; 5] = [CL_OPENDIR, CL_READDIR, CL_OPEN_FILE, CL_READ, CL_LSEEK];
+const CLASSES: [usize; 6] = [CL_OPENDIR, CL_READDIR, CL_OPEN_FILE, CL_READ, CL_LSEEK, crate::shim::CL_STAT];
+/// Set by the parent before it forks the children of one image: report every directory entry
+/// with d_type = DT_UNKNOWN, so that listing has to stat each entry (legal file-system behaviour).
+static DT_UNKNOWN: std::sync::atomic::AtomicBool = std::sync::atomic::AtomicBool::new(false);
 /// Every image uses EIO, ENOENT and a rotating choice of four more from this pool.
 const ERRNO_POOL: [(i32, &str); 8] = [
     (libc::EISDIR, "EISDIR"),
@@ -51,6 +54,7 @@ fn child_open(dir: &std::path::Path, key: u64, fault: Option<(usize, i64, i32, b
 fn child_open_mode(dir: &std::path::Path, _key: u64, fault: Option<(usize, i64, i32, bool)>, short_then_error: bool, budget: i64) -> Vec<u8> {
     shim::reset_all();
     shim::set_root(dir);
+    shim::dt_unknown(DT_UNKNOWN.load(std::sync::atomic::Ordering::Relaxed));
     if let Some((cls, nth, errno, persistent)) = fault {
         if short_then_error {
             shim::fault_short_read_then_error(nth, errno);
@@ -65,6 +69,7 @@ fn child_open_mode(dir: &std::path::Path, _key: u64, fault: Option<(usize, i64, 
     let r = mrecordlog::MultiRecordLog::open(dir);
     shim::pause(true);
     shim::budget(-1);
+    shim::dt_unknown(false);
     let counts = shim::counts();
     let delivered = shim::delivered();
     let mut out = String::new();
@@ -101,13 +106,14 @@ impl Monitor for C11 {
             ("injections_class_read", tier.pick(5_000, 100_000)),
             ("injections_class_readdir", tier.pick(1_000, 20_000)),
             ("injections_class_opendir", tier.pick(500, 10_000)),
+            ("injections_class_stat", tier.pick(500, 10_000)),
             ("injections_short_read_then_error", tier.pick(1_000, 20_000)),
             ("injections_into_non_first_wal_file", tier.pick(2_000, 40_000)),
-            ("images_with_3_or_more_files", tier.pick(30, 600)),
+            ("images_with_3_or_more_files", tier.pick(15, 400)),
         ]
     }
     fn rule(&self) -> String {
-        "case = one WAL image (1..8 files) produced by a generated history; per image the recovery's traced opendir/readdir/open/read/lseek calls are counted in a fault-free child, then EVERY n-th call of every class is failed once and from-then-on with each of 10 errnos (EIO, EACCES, ENOENT, ESTALE, EAGAIN, ETIMEDOUT, EBUSY, ENOSPC + two rotating through EISDIR, ENOTDIR, ELOOP, EINVAL, EPERM, EFBIG, EOVERFLOW, ENXIO, ENOMEM, EMFILE) in a fresh forked child (exhaustive per image over injection points); evaluation = one injected recovery; plus a bad-sector model (every read of recovery served short, the read that follows failing); oracle: the child must return Err(IoError) before a logical budget of 10x the fault-free traced calls + 1000; distinct_nontrivial = distinct (image, class, n, errno, mode) injections that hit a call after the first WAL file was opened".into()
+        "case = one WAL image (1..8 files) produced by a generated history; per image the recovery's traced opendir/readdir/open/read/lseek/stat-family calls are counted (every other image is listed with d_type = DT_UNKNOWN, so that the listing has to stat each entry) in a fault-free child, then EVERY n-th call of every class is failed once and from-then-on with each of 10 errnos (EIO, EACCES, ENOENT, ESTALE, EAGAIN, ETIMEDOUT, EBUSY, ENOSPC + two rotating through EISDIR, ENOTDIR, ELOOP, EINVAL, EPERM, EFBIG, EOVERFLOW, ENXIO, ENOMEM, EMFILE) in a fresh forked child (exhaustive per image over injection points); evaluation = one injected recovery; plus a bad-sector model (every read of recovery served short, the read that follows failing); oracle: the child must return Err(IoError) before a logical budget of 10x the fault-free traced calls + 1000; distinct_nontrivial = distinct (image, class, n, errno, mode) injections that hit a call after the first WAL file was opened".into()
     }
     fn assumptions(&self) -> Vec<String> {
         vec![
@@ -154,6 +160,12 @@ impl Monitor for C11 {
         }
         let dir = ctx.scratch.sub("c11-rec");
 
+        // every other image is listed by a file system that reports DT_UNKNOWN
+        let dt_unknown = case % 2 == 1;
+        DT_UNKNOWN.store(dt_unknown, std::sync::atomic::Ordering::Relaxed);
+        if dt_unknown {
+            acc.count("images_listed_with_d_type_unknown");
+        }
         // fault-free reference run
         img.materialize(&dir);
         let base = in_child(60, 600, || child_open(&dir, key, None, -1));
